@@ -115,9 +115,10 @@ structure ConnSt where
 structure Quirks where
   /-- LPUSH / RPUSH call `notify_key_ready` once per pushed element (code: once per command). -/
   notifyPerElement : Bool
-  /-- a wake-up that finds the list empty puts the still-blocked client back at the head of the key's
-      queue (code: the client is dropped from the registry and stays blocked without a deadline scan). -/
-  requeueOnEmptyWake : Bool
+  /-- the push arm drains the wake queue (`process_wakeups`) right after `notify_key_ready`, before the
+      next command of the batch can touch the list (code: the request waits for the next loop iteration,
+      and a wake-up that then finds the list empty drops the client from the registry for good). -/
+  wakeAtPush : Bool
   /-- a served client is unregistered from all its keys (code: only popped from the notified key). -/
   unregisterAllOnServe : Bool
   /-- a blocking pop executed by EXEC that finds nothing answers the null array at once
@@ -217,6 +218,26 @@ def notifyN : Nat → Key → State → State
   | 0, _, s => s
   | n+1, k, s => notifyN n k (notify k s)
 
+/-- `wake_client` for the request at the head of the wake queue. -/
+def wakeOne (q : Quirks) (s : State) : State :=
+  match s.wakeQ with
+  | [] => s
+  | w :: rest =>
+    let s0 : State := { s with wakeQ := rest }
+    match popElem w.op w.key s0.store with
+    | none => s0
+    | some (e, st') =>
+      let s1 : State := { s0 with store := st' }
+      if isBlockedLive s1 w.conn = true then
+        let s2 := setBlocked (emit s1 w.conn (.pair e.1 e.2)) w.conn none
+        if q.unregisterAllOnServe = true then { s2 with registry := s2.registry.filter fun x => x.2.conn != w.conn }
+        else s2
+      else { s1 with lost := s1.lost ++ [e] }
+
+def iter {α : Type} (f : α → α) : Nat → α → α
+  | 0, a => a
+  | n+1, a => iter f n (f a)
+
 /-- LPUSH/RPUSH/LPOP/RPOP/BLPOP/BRPOP executed for the client on wire connection `c`; `cid` is the
     connection id the handler receives: `c` itself, or 0 when called from `handle_exec`. -/
 def dataCmd (q : Quirks) (now : Nat) (c cid : Conn) (s : State) : Cmd → State
@@ -226,7 +247,8 @@ def dataCmd (q : Quirks) (now : Nat) (c cid : Conn) (s : State) : Cmd → State
       let st' := pushElems op k vs s.store
       let s1 : State := { s with store := st', pushed := s.pushed ++ vs.map fun v => (k, v) }
       let s2 := emit s1 c (.int (listOf st' k).length)
-      notifyN (if q.notifyPerElement then vs.length else 1) k s2
+      let s3 := notifyN (if q.notifyPerElement then vs.length else 1) k s2
+      if q.wakeAtPush = true then iter (wakeOne q) wakeBatch s3 else s3
   | .pop op k =>
     match popElem op k s.store with
     | some (e, st') => emit { s with store := st' } c (.bulk e.1 e.2)
@@ -260,31 +282,6 @@ def topCmd (q : Quirks) (now : Nat) (c : Conn) (s : State) : Cmd → State
   | cmd =>
     if (s.conns c).inTx then emit (setConn s c fun cs => { cs with queue := cs.queue ++ [cmd] }) c .queued
     else dataCmd q now c c s cmd
-
-/-- `wake_client` for the request at the head of the wake queue. -/
-def wakeOne (q : Quirks) (s : State) : State :=
-  match s.wakeQ with
-  | [] => s
-  | w :: rest =>
-    let s0 : State := { s with wakeQ := rest }
-    match popElem w.op w.key s0.store with
-    | none =>
-      if q.requeueOnEmptyWake = true ∧ isBlockedLive s0 w.conn = true then
-        match (s0.conns w.conn).blocked with
-        | some b => { s0 with registry := (w.key, { conn := w.conn, deadline := b.deadline, op := w.op }) :: s0.registry }
-        | none => s0
-      else s0
-    | some (e, st') =>
-      let s1 : State := { s0 with store := st' }
-      if isBlockedLive s1 w.conn = true then
-        let s2 := setBlocked (emit s1 w.conn (.pair e.1 e.2)) w.conn none
-        if q.unregisterAllOnServe = true then { s2 with registry := s2.registry.filter fun x => x.2.conn != w.conn }
-        else s2
-      else { s1 with lost := s1.lost ++ [e] }
-
-def iter {α : Type} (f : α → α) : Nat → α → α
-  | 0, a => a
-  | n+1, a => iter f n (f a)
 
 def isExpired (now : Nat) (e : Key × Waiter) : Bool :=
   match e.2.deadline with
